@@ -1078,8 +1078,112 @@ static void stage_rsxx(Case &c)
     API("opn2_close", opn2_close(d));
 }
 
+// ------------------------------------------------------------------------------------------
+// stage playing: a rejected call leaves "the audible behaviour exactly as before" also while a song is being rendered. Two instances
+// with the same configuration render the same song through opn2_play with the same (odd, period-unaligned) request sizes; one of them
+// additionally receives calls that are certain to be refused (out-of-range emulator, chip count, device id, bank id, track, channel)
+// between the audio calls. Every such call must report failure, leave the getters and the bank list as they were, and the PCM of the
+// two instances must stay bit-identical to the end.
+// ------------------------------------------------------------------------------------------
+static std::string bank_list(OPN2_MIDIPlayer *d)
+{
+    std::string s; OPN2_Bank b; int rc = -1, n = 0;
+    API("opn2_getFirstBank", rc = opn2_getFirstBank(d, &b));
+    while(rc == 0 && n++ < 70000)
+    {
+        OPN2_BankId id; memset(&id, 0, sizeof(id)); int ri = 0; API("opn2_getBankId", ri = opn2_getBankId(d, &b, &id)); (void)ri;
+        s += vfmt("%u/%u/%u ", id.percussive, id.msb, id.lsb);
+        API("opn2_getNextBank", rc = opn2_getNextBank(d, &b));
+    }
+    return s;
+}
+static std::string getter_vector(OPN2_MIDIPlayer *d)
+{
+    int a = 0, b = 0, e = 0, f = 0, g = 0, h = 0, i = 0; const char *en = NULL; double pos = 0; size_t tc = 0;
+    API("opn2_getNumChips", a = opn2_getNumChips(d)); API("opn2_getNumChipsObtained", b = opn2_getNumChipsObtained(d));
+    API("opn2_getVolumeRangeModel", e = opn2_getVolumeRangeModel(d)); API("opn2_getChannelAllocMode", f = opn2_getChannelAllocMode(d));
+    API("opn2_getLfoEnabled", g = opn2_getLfoEnabled(d)); API("opn2_getLfoFrequency", h = opn2_getLfoFrequency(d)); API("opn2_getChipType", i = opn2_getChipType(d));
+    API("opn2_chipEmulatorName", en = opn2_chipEmulatorName(d)); API("opn2_positionTell", pos = opn2_positionTell(d)); API("opn2_trackCount", tc = opn2_trackCount(d));
+    return vfmt("chips %d/%d model %d alloc %d lfo %d/%d chiptype %d emu %s pos %.9f tracks %zu devid %u", a, b, e, f, g, h, i, en ? en : "(null)", pos, tc, (unsigned)P(d)->m_sysExDeviceId);
+}
+static void stage_playing(Case &c)
+{
+    Rng &r = c.rng;
+    const long rate = r.pick((const long[]){8000, 22050, 44100});
+    const int emu = r.chance(0.5) ? 0 : 2, chips = r.range(1, 3), devid = (int)r.below(16);
+    SongOpts so; so.min_tracks = 2; so.max_tracks = 4; so.max_events = 30; so.tempo_changes = true; so.force_division = 96;
+    Song song = gen_song(r, so); Bytes f = serialize_song(song);
+    OPN2_MIDIPlayer *d[2] = {NULL, NULL};
+    for(int q = 0; q < 2; q++)
+    {
+        API("opn2_init", d[q] = opn2_init(rate));
+        if(!d[q]) { c.violation("oracle:init-failed", "opn2_init returned NULL"); if(d[0]) opn2_close(d[0]); return; }
+        int rc = 0;
+        API("opn2_switchEmulator", rc = opn2_switchEmulator(d[q], emu)); API("opn2_setNumChips", rc = opn2_setNumChips(d[q], chips));
+        { ExactBuf b(default_bank()); API("opn2_openBankData", rc = opn2_openBankData(d[q], b.p, (long)b.n)); }
+        API("opn2_setDeviceIdentifier", rc = opn2_setDeviceIdentifier(d[q], (unsigned)devid));
+        API("opn2_setLoopEnabled", opn2_setLoopEnabled(d[q], 1));
+        { ExactBuf in(f); API("opn2_openData", rc = opn2_openData(d[q], in.p, (unsigned long)in.n)); }
+        if(rc != 0) { c.violation("oracle:C18:wellformed-music-rejected:SMF", opn2_errorInfo(d[q])); opn2_close(d[0]); if(q) opn2_close(d[1]); return; }
+    }
+    std::string hist = vfmt("rate %ld emu %d chips %d; ", rate, emu, chips);
+    std::vector<short> pa(2 * 4096 + 16), pb(2 * 4096 + 16);
+    long refused = 0, frames = 0; bool differ = false;
+    const int rounds = r.range(12, 40);
+    for(int it = 0; it < rounds && !differ && g_w.violations_in_case < 6; it++)
+    {
+        int want = 2 * (int)r.range(1, r.chance(0.5) ? 300 : 2500) + (int)r.below(2);
+        int ga = 0, gb = 0;
+        API("opn2_play", ga = opn2_play(d[0], want, pa.data())); API("opn2_play", gb = opn2_play(d[1], want, pb.data()));
+        hist += vfmt("play(%d) ", want);
+        if(ga != gb || memcmp(pa.data(), pb.data(), sizeof(short) * (size_t)std::max(ga, 0)))
+        {
+            long at = 0; while(at < ga && at < gb && pa[(size_t)at] == pb[(size_t)at]) at++;
+            c.violation("oracle:C18:failed-call-changed:audio-while-playing", vfmt("after %ld refused calls the instance renders differently from its undisturbed twin: opn2_play(%d) -> %d vs %d, first differing sample %ld of this call (frame %ld of the run); %s",
+                        refused, want, ga, gb, at, frames + at / 2, hist.size() > 700 ? hist.substr(hist.size() - 700).c_str() : hist.c_str()));
+            differ = true; break;
+        }
+        frames += ga / 2;
+        if(!r.chance(0.6)) continue;
+        // a call that is certain to be refused, on the first instance only
+        const std::string g0 = getter_vector(d[0]), b0 = bank_list(d[0]);
+        int rc = 0; std::string api, arg;
+        switch(r.below(6))
+        {
+        case 0: { long v = r.pick((const long[]){-1, 9, 10, 31, 32, 100, INT_MAX, INT_MIN}); api = "opn2_switchEmulator"; arg = vfmt("%ld", v); API("opn2_switchEmulator", rc = opn2_switchEmulator(d[0], (int)v)); break; }
+        case 1: { long v = r.pick((const long[]){0, -1, 101, 1000, INT_MIN, INT_MAX}); api = "opn2_setNumChips"; arg = vfmt("%ld", v); API("opn2_setNumChips", rc = opn2_setNumChips(d[0], (int)v)); break; }
+        case 2: { unsigned long v = r.pick((const unsigned long[]){16, 17, 127, 128, 255, 256, 0x7FFFFFFFul}); api = "opn2_setDeviceIdentifier"; arg = vfmt("%lu", v); API("opn2_setDeviceIdentifier", rc = opn2_setDeviceIdentifier(d[0], (unsigned)v)); break; }
+        case 3: { long v = r.pick((const long[]){99, 1000, 64}); api = "opn2_setTrackOptions"; arg = vfmt("%ld, off", v); API("opn2_setTrackOptions", rc = opn2_setTrackOptions(d[0], (size_t)v, OPNMIDI_TrackOption_Off)); break; }
+        case 4: { long v = r.pick((const long[]){16, 17, 255, 100000}); api = "opn2_setChannelEnabled"; arg = vfmt("%ld, 0", v); API("opn2_setChannelEnabled", rc = opn2_setChannelEnabled(d[0], (size_t)v, 0)); break; }
+        default:
+        {
+            OPN2_BankId id; id.percussive = 0; id.msb = 0; id.lsb = 0;
+            switch(r.below(5)) { case 0: id.msb = (OPN2_UInt8)r.range(128, 255); break; case 1: id.lsb = (OPN2_UInt8)r.range(128, 255); break; case 2: id.percussive = (OPN2_UInt8)r.range(2, 255); break;
+                                 case 3: id.percussive = 1; id.msb = (OPN2_UInt8)r.range(128, 255); break; default: id.msb = 128; id.lsb = 128; break; }
+            int flags = (int)r.pick((const int[]){0, OPNMIDI_Bank_Create, OPNMIDI_Bank_CreateRt});
+            OPN2_Bank bk; api = "opn2_getBank"; arg = vfmt("{percussive %u, msb %u, lsb %u}, flags %d", id.percussive, id.msb, id.lsb, flags);
+            API("opn2_getBank", rc = opn2_getBank(d[0], &id, flags, &bk));
+            break;
+        }
+        }
+        hist += api + "(" + arg + ") ";
+        refused++; count("refused_calls_while_playing");
+        if(rc == 0) c.violation("oracle:C18:invalid-argument-accepted:" + api, vfmt("%s(%s) reported success; %s", api.c_str(), arg.c_str(), hist.size() > 400 ? hist.substr(hist.size() - 400).c_str() : hist.c_str()));
+        const std::string g1 = getter_vector(d[0]), b1 = bank_list(d[0]);
+        if(g1 != g0) c.violation("oracle:C18:failed-call-changed:" + api + ":getters-while-playing", vfmt("%s(%s) -> %d: before [%s] after [%s]", api.c_str(), arg.c_str(), rc, g0.c_str(), g1.c_str()));
+        if(b1 != b0) c.violation("oracle:C18:failed-call-changed:" + api + ":bank-list", vfmt("%s(%s) -> %d: bank list before [%s] after [%s]", api.c_str(), arg.c_str(), rc, b0.c_str(), b1.c_str()));
+        // (the statement asks for an error text after rejected bank and music files only: not judged for these setters)
+        cover("playing|" + api + "|" + (rc == 0 ? "accepted" : "refused"));
+    }
+    count("frames_compared_with_the_undisturbed_twin", frames);
+    API("opn2_close", opn2_close(d[0])); API("opn2_close", opn2_close(d[1]));
+    c.nontrivial = refused >= 3 && frames > 500;
+    c.sample(std::string("{\"stage\":\"playing\",\"refused_calls\":") + vfmt("%ld", refused) + ",\"frames\":" + vfmt("%ld", frames) + ",\"history_tail\":" + jstr(hist.size() > 300 ? hist.substr(hist.size() - 300) : hist) + "}");
+}
+
 static void run_case(Case &c)
 {
+    if(g_w.stage == "playing") { stage_playing(c); return; }
     if(g_w.stage == "rsxx" || g_w.stage == "formats") { stage_rsxx(c); return; }
     Rng &r = c.rng;
     static const long rates[] = {8000, 11025, 16000, 22050, 32000, 44100, 48000, 53267};
